@@ -108,7 +108,7 @@ Profile(rep, rport, ruser, rfrag, sort, dscheme) ==
    is predicted for ANY input whose host does not need the IDNA oracle. *)
 LaxQuerySet == SetDel(SetQuery, {34, 37, 47, 59, 63, 123})
 GsbOpts == [DefaultOpts EXCEPT !.sQuery = LaxQuerySet, !.collapse = TRUE, !.singlePct = TRUE, !.preHost = "gsb", !.lax = TRUE, !.acceptInvalid = TRUE]
-SemanticOpts == [DefaultOpts EXCEPT !.special = GopherSpecial, !.sPath = SetDel(SetPath, {46, 60, 62}), !.sQuery = LaxQuerySet, !.collapse = TRUE,
+SemanticOpts == [DefaultOpts EXCEPT !.special = SemanticSpecial, !.sPath = SetDel(SetPath, {46, 60, 62}), !.sQuery = LaxQuerySet, !.collapse = TRUE,
                                     !.singlePct = TRUE, !.preHost = "semantic", !.lax = TRUE, !.acceptInvalid = TRUE, !.latin1 = TRUE]
 ProfileOf(name) ==
   CASE name = "WhatWg" -> Profile(FALSE, FALSE, FALSE, FALSE, "none", <<>>)
